@@ -20,9 +20,30 @@ IsilNorm(v) == LET i == IndexOf(v, 45)
 (* check characters, so numbers are compared on root+episode+version            *)
 IsanCore(v) == IF Len(v) = 16 \/ Len(v) = 17 THEN SubSeq(v, 1, 16)
                ELSE IF Len(v) = 24 THEN v
-               ELSE IF Len(v) = 25 THEN SubSeq(v, 1, 16) \o SubSeq(v, 18, 25)   \* check1 only
+               ELSE IF Len(v) = 25 THEN SubSeq(v, 1, 24)                        \* check2 only
                ELSE IF Len(v) = 26 THEN SubSeq(v, 1, 16) \o SubSeq(v, 18, 25)
                ELSE v
+
+(* documented identity-changing options: isbn convert=True shows the ISBN-13,   *)
+(* imei add_check_digit=True appends the Luhn check digit                       *)
+EanCheckDigit(s) ==   \* s: 12 digits
+  LET sum == FoldLeft(LAMBDA acc, i : acc + (IF i % 2 = 1 THEN 1 ELSE 3) * (s[i] - 48), 0, [i \in 1..Len(s) |-> i])
+  IN 48 + ((10 - (sum % 10)) % 10)
+Isbn13Of(v) == IF Len(v) = 10
+               THEN LET body == <<57, 55, 56>> \o SubSeq(v, 1, 9) IN Append(body, EanCheckDigit(body))
+               ELSE v
+LuhnDouble(d) == IF 2 * d > 9 THEN 2 * d - 9 ELSE 2 * d
+LuhnCheckDigit(s) ==  \* s: payload digits; the check digit will be appended
+  LET n == Len(s)
+      sum == FoldLeft(LAMBDA acc, i : acc + (IF (n - i) % 2 = 0 THEN LuhnDouble(s[i] - 48) ELSE s[i] - 48), 0, [i \in 1..n |-> i])
+  IN 48 + ((10 - (sum % 10)) % 10)
+ImeiWithCheck(v) == IF Len(v) = 14 THEN Append(v, LuhnCheckDigit(v)) ELSE v
+
+NormEqOpt(m, o, v, w) ==
+  CASE m = "isbn" /\ o \in {"{\"convert\": true}", "{\"convert\": true, \"separator\": \"\"}"} -> w = Isbn13Of(v)
+    [] m = "imei" /\ o = "{\"add_check_digit\": true}" -> w = ImeiWithCheck(v)
+    [] OTHER -> FALSE
+HasOptNorm(m, o) == (m = "isbn" /\ o = "{\"convert\": true}") \/ (m = "imei" /\ o = "{\"add_check_digit\": true}")
 
 NormEq(m, v, w) ==
   CASE m = "ismn" -> w = IsmnNorm(v)
@@ -32,7 +53,8 @@ NormEq(m, v, w) ==
 
 G0(e, s) == (e.a = "format" /\ IsStrRet(s.v)) => IsStrRet(e.r)
 G1(e, s) == (e.a = "validate_f" /\ IsStrRet(s.v) /\ IsStrRet(s.f))
-              => (IsStrRet(e.r) /\ NormEq(e.m, s.v.v, e.r.v))
+              => (IsStrRet(e.r) /\ IF HasOptNorm(e.m, s.fo) THEN NormEqOpt(e.m, s.fo, s.v.v, e.r.v)
+                                                               ELSE NormEq(e.m, s.v.v, e.r.v))
 G2(e, s) == (e.a = "format_v" /\ IsStrRet(s.v) /\ IsStrRet(s.f) /\ e.o = s.fo)
               => (IsStrRet(e.r) /\ e.r.v = s.f.v)
 =============================================================================
